@@ -32,6 +32,9 @@ def run(ctx):
         "with the prescribed document, parsed back, and the harness-written prescribed document is parsed. A case is a distinct (model, instance)."
     )
     ctx.assumptions += ["values are drawn from the stated value sets (XML 1.0 representable)", "dataclass equality; NaN is not in the TLC universe (zoo covers it)"]
+    from .. import xmlshape_bind
+
+    xmlshape_bind.run_matrix(ctx, "C01")   # spec/XmlShape.tla: field kinds x XML shapes x positions
     mf = ctx.pick(1, 2)
     ctx.tlc("MC_RoundTrip", "run.cfg", extra_files={"run.cfg": rt.cfg_text(max_fields=mf, faults=("none",), cfgs="StrictOnly", invariants=VALID_INVS)},
             label=f"MC_RoundTrip valid documents, {mf} field(s)", timeout=3000)
